@@ -935,6 +935,30 @@ func arrayMapSweep(sum *vh.Summary) {
 					sum.FailC("merge", "keep:array-of-structs-map-entry", "a partial element of an array-valued map entry does not leave the rest untouched", cj)
 				}
 			}
+			// a pre-populated slice that has to GROW (stream longer than its capacity): the existing
+			// elements are carried over and merged into
+			if !mvr {
+				bs = nil
+				codec.NewEncoderBytes(&bs, h).Encode([]interface{}{map[string]int{"X": 9}, map[string]int{"Y": 8}, map[string]int{"X": 7}})
+				s1 := make([]pt, 2, 2)
+				s1[0], s1[1] = pt{1, 2}, pt{3, 4}
+				p0, p1 := &pt{1, 2}, &pt{3, 4}
+				s2 := make([]*pt, 2, 2)
+				s2[0], s2[1] = p0, p1
+				s3 := make([]map[string]int, 2, 2)
+				s3[0], s3[1] = map[string]int{"X": 1, "k": 5}, map[string]int{"Y": 2}
+				e1 := codec.NewDecoderBytes(bs, h).Decode(&s1)
+				e2 := codec.NewDecoderBytes(bs, h).Decode(&s2)
+				e3 := codec.NewDecoderBytes(bs, h).Decode(&s3)
+				ok := e1 == nil && e2 == nil && e3 == nil &&
+					reflect.DeepEqual(s1, []pt{{9, 2}, {3, 8}, {7, 0}}) &&
+					len(s2) == 3 && *s2[0] == (pt{9, 2}) && *s2[1] == (pt{3, 8}) && *s2[2] == (pt{7, 0}) &&
+					reflect.DeepEqual(s3, []map[string]int{{"X": 9, "k": 5}, {"Y": 8}, {"X": 7}})
+				if !ok {
+					cj["got"] = fmt.Sprint(s1, s3)
+					sum.FailC("merge", "keep:growing-slice-elements", "growing a pre-populated slice on decode does not carry the existing elements over", cj)
+				}
+			}
 			sum.Count("merge.arraymap."+format, fmt.Sprintf("arraymap/%s/%v", format, mvr))
 		}
 	}
